@@ -16,6 +16,10 @@ SPEC = {
         'failed_read_atomic', 'failed_read_atomic_dexp', 'failed_read_atomic_sexp', 'failed_read_atomic_dmodel',
         'failed_read_atomic_smodel', 'failed_read_atomic_pd', 'failed_read_atomic_ps', 'failed_read_atomic_mpol',
         'failed_read_atomic_ppol', 'prefix_behaviour',
+        # a cut on a token boundary is always rejected (extensibility of every reader + round trip)
+        'ext_rdDExp', 'ext_rdSExp', 'ext_rdDModel', 'ext_rdSModel', 'ext_rdPD', 'ext_rdPS', 'ext_rdMPol', 'polLoop_mono', 'ext_polLoop', 'ext_rdPPol',
+        'strict_prefix_fails', 'truncated_load_rejected', 'truncated_rejected_dexp', 'truncated_rejected_sexp', 'truncated_rejected_dmodel',
+        'truncated_rejected_smodel', 'truncated_rejected_mpol', 'truncated_rejected_ppol', 'truncated_rejected_pd', 'truncated_rejected_ps',
         # tied to the source through Gen/IOPrec
         'roundtrip_dmodel_src', 'roundtrip_smodel_src', 'roundtrip_dexp_src', 'roundtrip_mpol_src',
         'roundtrip_sexp_src', 'roundtrip_sexp_src_partial', 'roundtrip_ppol_src',
